@@ -104,7 +104,9 @@ def outcome(o):
 def op_term(op):
     if op[0] == "set":
         return C("SetA", op[1], op[2])
-    return C("GetA" if op[0] == "get" else "DelA", op[1])
+    if op[0] == "val":
+        return C("ValA", op[1], op[2])
+    return C({"get": "GetA", "def": "DefA"}.get(op[0], "DelA"), op[1])
 
 
 def to_term(case, obs):
@@ -169,10 +171,12 @@ def gen_case(rnd, ctx, maxlen):
     ops = []
     for _ in range(rnd.randint(1, maxlen)):
         n = rnd.randrange(len(traits))
-        k = rnd.choice(["set", "set", "set", "get", "del"])
-        if k == "set":
+        k = rnd.choice(["set", "set", "set", "set", "get", "get", "del", "val", "def"])
+        if k in ("val", "def") and traits[n]["kind"] != "trait":
+            k = "get"
+        if k in ("set", "val"):
             v = P if rnd.random() < 0.08 else rnd.randrange(P)
-            ops.append(["set", n, v])
+            ops.append([k, n, v])
         else:
             ops.append([k, n])
         ctx.count("op:" + k)
@@ -187,7 +191,8 @@ def corpus():
                 dflt=["const", A_NONE], post="none", cmpnone=False, handlers=[])
     cs = []
     allops = [["set", 0, 0], ["set", 0, 1], ["set", 0, 2], ["set", 0, 3], ["get", 0], ["del", 0], ["get", 0],
-              ["set", 0, 4], ["set", 0, 0], ["del", 0], ["del", 0], ["set", 0, 3]]
+              ["set", 0, 4], ["set", 0, 0], ["del", 0], ["del", 0], ["set", 0, 3],
+              ["val", 0, 0], ["val", 0, 1], ["val", 0, 2], ["val", 0, 3], ["def", 0]]
     for post in ("none", "ok", "raise"):
         for dflt in (["const", A_NONE], ["const", 2], ["call", 3], ["call", None]):
             for handlers in ([], [False], [True, False]):
